@@ -139,7 +139,11 @@ def leg(ctx, rep, rnd, tier, only=None):
                       {"input": line, "stderr": err, "leg": "byteswap"})
     for line, err in mcr:
         rep.violation("byteswap model driver crashed on `%s`: %s" % (line[:200], err[-300:]), {"input": line, "leg": "byteswap", "names": "ml/byteswap driver"}, found_input=False)
-    n = {"byteswap_cases": len(cases), "byteswap_converted_by_impl": 0, "byteswap_le_unchanged": 0, "byteswap_rejected_by_loader": 0,
+    def body_sig(b):
+        """the body signature as written in the message (field 8), for counting distinct shapes"""
+        i = b.find(b"\x08\x01g\x00", 16)
+        return b[i + 5:i + 5 + b[i + 4]] if i >= 0 else b""
+    n = {"byteswap_cases": len(cases), "byteswap_distinct_signatures": len({body_sig(c[2]) for c in cases}), "byteswap_converted_by_impl": 0, "byteswap_le_unchanged": 0, "byteswap_rejected_by_loader": 0,
          "byteswap_directed": 0, "byteswap_labels": {}}
     second = []
     for (label, le, b, other), i, m in zip(cases, impl, model):
